@@ -16,8 +16,8 @@ the bin target names), *composite* (descriptor with an order; its `package.toml`
 `Cargo.toml`: never a node of the graph). Compiled binaries are abstract: `Content.artifact pkg target profile` stands for
 the file cargo leaves at `<target dir>/<triple>/<debug|release>/<target>` for that package (cargo and rustc are runtime).
 
-**The package directory** is a flat map from paths (relative to the package directory) to leaves: regular files, symbolic
-links and explicitly created directories; every proper prefix of an entry's path is a directory (implied). `lookup` takes
+**The package directory** is a flat map from paths (relative to the package directory) to entries: regular files, symbolic
+links and directories. `create_dir_all p` makes an entry for every non-empty prefix of `p` (`dirEntries`). `lookup` takes
 the first entry for a path, so `write` shadows. `remove_dir_all p` drops every entry at or below `p`, symbolic links are
 entries like any other (not followed). The result of `let _ = fs::remove_dir_all(..)` is ignored by the code; the model
 takes the removal to succeed (it does for every content the tool itself or the harness, running as root, can leave).
@@ -67,6 +67,12 @@ def write (p : Path) (n : Node) (fs : FS) : FS := (p, n) :: fs
 
 /-- `fs::remove_dir_all(p)`: everything at or below `p` -/
 def removeAll (p : Path) (fs : FS) : FS := fs.filter (fun e => !(p.isPrefixOf e.1))
+
+/-- the directories `fs::create_dir_all(p)` makes sure exist: every non-empty prefix of `p` -/
+def dirEntries (p : Path) : FS := (List.range p.length).map (fun k => (p.take (k + 1), Node.dir))
+
+/-- `fs::create_dir_all(p)` (on the way there is nothing but directories — the code fails otherwise) -/
+def mkdirAll (p : Path) (fs : FS) : FS := dirEntries p ++ fs
 
 inductive Kind
   /-- a libcnb.rs buildpack: cargo package name and bin target names (cargo metadata order) -/
@@ -163,7 +169,7 @@ def libcnbItems (profile : Profile) (descriptor pkgName main : String) (adds : L
    (["bin", "build"], .file (.artifact pkgName main profile)),
    (["bin", "detect"], .link "build")] ++
   (if adds.isEmpty then []
-   else (additionalDir, Node.dir) :: adds.map (fun n => (additionalDir ++ [n], Node.file (.artifact pkgName n profile)))) ++
+   else ([".libcnb-cargo"], Node.dir) :: (additionalDir, Node.dir) :: adds.map (fun n => (additionalDir ++ [n], Node.file (.artifact pkgName n profile)))) ++
   [(["package.toml"], .file (.pkg libcnbPackageToml))]
 
 /-- `package_composite_buildpack`, in write order -/
@@ -218,7 +224,7 @@ def writeAll (dest : Path) (items : List (Path × Node)) (fs : FS) : FS :=
   items.foldl (fun fs it => write (dest ++ it.1) it.2 fs) fs
 
 /-- the effect of one iteration: `remove_dir_all(dest)`, `create_dir_all(dest)`, then the writes -/
-def applyStep (fs : FS) (s : Step) : FS := writeAll s.dest s.items (write s.dest .dir (removeAll s.dest fs))
+def applyStep (fs : FS) (s : Step) : FS := writeAll s.dest s.items (mkdirAll s.dest (removeAll s.dest fs))
 
 /-! ### the dependency graph (`buildpack_dependency_graph.rs`) -/
 
